@@ -955,8 +955,17 @@ def full_api_replays(rep, seed, n=60):
         b[1] = x[1] - x[3]
         return algopy.sum(x * x * z[0]) + algopy.dot(x[:2], z) * x[3] - x[1] / (x[2] + 2) + algopy.sum(b * b[::-1])
 
+    def p_keywords(x, z):
+        # module-level functions called with their non-default keyword / optional arguments on traced operands (the tracer's
+        # triu / tril / diag take no offset k: an explicit TypeError, not generated)
+        A = algopy.reshape(x, (2, 2)) * numpy.array([[1., 2.], [3., 4.]])
+        w3 = numpy.array([1., -2., 3.])
+        return (algopy.sum(algopy.symvec(A, 'L') * w3) + algopy.sum(algopy.symvec(A, UPLO='U') * w3[::-1]) + algopy.sum(algopy.symvec(A) * w3)
+                + algopy.sum(algopy.vecsym(algopy.symvec(A, 'L') * z[0]) * W) + algopy.sum(algopy.triu(A)) - algopy.sum(algopy.tril(A)) * z[1]
+                + algopy.sum(algopy.diag(A)) + algopy.sum(algopy.sum(A, axis=1) * z) + algopy.sum(algopy.tile(z, (2, 1)) * A))
+
     progs = [p_pow_traced, p_buffer, p_fft_axis, p_views, p_linalg, p_consts, p_sum_axes, p_special,
-             p_reflected, p_const_left_linalg, p_shape_props, p_zeros_ones_like, p_factorizations, p_det_family, p_rational]
+             p_reflected, p_const_left_linalg, p_shape_props, p_zeros_ones_like, p_factorizations, p_det_family, p_rational, p_keywords]
     for it in range(n):
         f = progs[it % len(progs)]
         order = rnd.choice(["xz", "zx"])           # the order in which the independents are LISTED
